@@ -171,11 +171,11 @@ var checks = []Check{
 	{
 		ID: "C09", Pkg: "checks/c09", Instr: append(append([]string{}, coreInstr...), "systems/raftkvs", "systems/raftkvs/bootstrap"), Env: []string{"VERIF_C09_LEVELB=1"},
 		QuickRuns: 20000, ThoroughRuns: 1000000, QuickBudgetS: 60, ThoroughBudgetS: 1500, ShrinkS: 60,
-		Rule: "five runs in six = the same level-A Raft execution as C08 (with an adaptive workload: after a leader change following an acknowledged Put the next request is usually a Get of that key); one run in six = level B: the shipped bootstrap of systems/raftkvs (bootstrap.NewServer/NewClient with the real relaxed mailboxes, monitors, failure detectors, election timer, CustomInChan, LocalShared variables, in a third of those runs PersistentLog/MakePersistent on an in-memory badger store) for 1/3/5 servers and 1-3 clients under the simulator's scheduler, clock and network, clients going through the real bootstrap.Client.Run (request time-outs and re-sends included), 0-2 windows in which one server is cut off from the network and optionally one server stopped; in both levels the history of client operations (invoke/return stamped with event sequence numbers; unanswered Puts pending for ever, unanswered Gets dropped) is checked with porcupine against a key-value map partitioned by key; non-trivial = at least 2 answered operations; distinct = distinct interleaving digests",
+		Rule: "eleven runs in twelve = the same level-A Raft execution as C08 (with an adaptive workload: after a leader change following an acknowledged Put the next request is usually a Get of that key); one run in twelve = level B: the shipped bootstrap of systems/raftkvs (bootstrap.NewServer/NewClient with the real relaxed mailboxes, monitors, failure detectors, election timer, CustomInChan, LocalShared variables, in a third of those runs PersistentLog/MakePersistent on an in-memory badger store) for 1/3/5 servers and 1-3 clients under the simulator's scheduler, clock and network, clients going through the real bootstrap.Client.Run (request time-outs and re-sends included), 0-2 windows in which one server is cut off from the network and optionally one server stopped; in both levels the history of client operations (invoke/return stamped with event sequence numbers; unanswered Puts pending for ever, unanswered Gets dropped) is checked with porcupine against a key-value map partitioned by key; non-trivial = at least 2 answered operations; distinct = distinct interleaving digests",
 		Real: append(append([]string{}, realA...), "level B runs: systems/raftkvs/bootstrap (server.go, client.go, helper.go), raftkvs timer.go, customch.go, persistentlog.go, distsys/resources relaxed mailboxes, Monitor, SingleFailureDetector, LocalSharedManager, Persistent — real, instrumented by overlay"),
 		Stub: append(append([]string{}, stubA...), stubU...),
 		Assumptions: []string{"porcupine time-outs counted as inconclusive", "<= 18 operations per history", "level B: a re-sent request is recognised by the bootstrap client's own log line (\"client N sent timeout\"); progress at level B is not judged (counted as level_b_unfinished)"},
-		MustProbe:   []string{"client_ops_recorded", "two_or_more_elections", "level_b", "level_b_op_answered", "level_b_ops_with_partition", "level_b_persist", "get_after_leader_change"}, MinRunsForProbes: 1000,
+		MustProbe:   []string{"client_ops_recorded", "two_or_more_elections", "level_b", "level_b_op_answered", "level_b_ops_with_partition", "level_b_persist", "depose_mode"}, MinRunsForProbes: 1000,
 	},
 	{
 		ID: "C14", Pkg: "checks/c14", Instr: coreInstr,
